@@ -1,6 +1,6 @@
 """C01 All VM configurations compute the same hash."""
 import astq
-from rules import a64hsem, aes, argon, cgsize, driver, dsinit, jit, jitcross, portable, rv64, rvhsem, spec, sshash, vmcfg, x86hsem, rtpreserve, aeshw, x86loop, a64sem, a64dsread, rvdsread
+from rules import a64hsem, aes, argon, cgsize, driver, dsinit, jit, jitcross, portable, rv64, rvhsem, spec, sshash, vmcfg, x86hsem, rtpreserve, aeshw, x86loop, a64sem, a64dsread, rvdsread, a64fp
 
 LEVEL = 'other'
 TECHNIQUE = ('exhaustive flag-to-class dispatch check, frozen-table check of every dataset-address composition site, per-engine v1/v2 gate enumeration, abstract interpretation of the hand-written dataset-read fragments, sibling agreement rules of C04 / C08 / C10 / C12'
@@ -32,6 +32,8 @@ EXPLANATION += ' A64-DSITEM-HSEM, A64-DSREAD-LIGHT, RV-DSREAD-LIGHT.'
 EXPLANATION += ' RV-DSITEM-HSEM.'
 
 EXPLANATION += ' X86-DSITEM.'
+
+EXPLANATION += ' A64-FP-HSEM.'
 
 
 def run(ctx, R):
@@ -91,3 +93,4 @@ def run(ctx, R):
     a64dsread.rule_dsitem(ctx, R)
     rvdsread.rule_dsitem(ctx, R)
     x86loop.rule_dsitem(ctx, R)
+    a64fp.rule_fp_hsem(ctx, R)
